@@ -8,6 +8,16 @@ VALPOOL = [{"t": "Int", "v": "7"}, {"t": "String", "v": "a?b"}, {"t": "String", 
            {"t": "String", "v": "back\\"}, {"t": "Bool", "v": True}, {"t": "String", "null": True}]
 RAND_ITEMS = [i["s"] for i in ITEMS] + ["é", "中x", "'it''s ?'", "'a\\'?'", "\"q\"\"?\"", "[b?]", " ", "\t", "::", "->>", "$10", "$01", "?1", "x_1", "1e5"]
 
+def _sel(*exprs):
+    return {"kind": "select", "calls": [{"op": "expr", "e": e} for e in exprs]}
+def _const(sv): return {"k": "const", "v": {"t": "String", "v": sv}}
+def _val(n): return {"k": "val", "v": {"t": "Int", "v": str(n)}}
+# inlined constants (not bound) next to bound values: text with quote / backslash / mark characters
+EXTRA = [_sel(_const(c), _val(7001), _const(c), _val(7002)) for c in ["a\\", "it's", "?", "$1", "a\\'b", "q\"d", "x''y", "\\", "", "[b?]", "`"]] + \
+        [{"kind": "select", "calls": [{"op": "column", "c": "id"}, {"op": "from", "t": ["t1"]},
+                                      {"op": "order_by", "e": {"k": "col", "n": "c"}, "o": {"d": "Field", "field": [{"t": "String", "v": c}, {"t": "String", "v": "k"}]}},
+                                      {"op": "limit", "n": 3}]} for c in ["a\\", "it's", "?", "$1"]]
+
 def run(tier, replay_path=None):
     t0 = time.time(); pid = "C11"
     wd = workdir(pid); rng = random.Random(seed()); V = Verdict(pid, tier)
@@ -56,7 +66,7 @@ def run(tier, replay_path=None):
             if drift <= 5: V.note("DRIFT: C11 expansion differs from the modelled token loop for %r" % r["tpl"])
     # second half of the property: inject_parameters(build) = to_string for the statements of the C01/C02 exploration
     import stmtpipe
-    sf, snotes, sst = stmtpipe.collect("C11", tier, None, ["C11/"], os.path.join(wd, "stmts"), rng) if not replay_path else ([], [], {"n": 0, "states": 0, "transitions": 0})
+    sf, snotes, sst = stmtpipe.collect("C11", tier, None, ["C11/"], os.path.join(wd, "stmts"), rng, extra_stmts=EXTRA) if not replay_path else ([], [], {"n": 0, "states": 0, "transitions": 0})
     for k, rec in sf:
         V.fail(k.replace("C11/", "C11/stmt/"), rec)
     states += sst.get("states", 0); gen += sst.get("transitions", 0)
